@@ -128,4 +128,54 @@ def swapByTo (cx : NumCtx) (w : Wallet) (allowNeg : Bool) (fromTok toTok : Strin
         .ok { wallet := Wallet.credit cx w1 toTok amount, fromAmount := fromAmount, toAmount := amount,
               fee := cx.mul fromAmount feeRate }
 
+/-! ### the amount as Python hands it over
+
+Since fix 83dd7db `swap_by_from` / `swap_by_to` are `@float_param_formatter` like `add_to_balance` / `subtract_from_balance`:
+`object_to_decimal` turns a `float` or `int` argument into `Decimal(str(x))` before the body runs, so the body's checks,
+the debit, the credit and the action record all see one `Decimal`.  (Before the fix the debit used `Decimal(str(x))`,
+the credit `Decimal(x)` — the exact binary value — and `amount * fee_rate` raised `TypeError` after both had happened.) -/
+
+/-- a numeric argument: a `Decimal`, an `int`, or a finite `float` given by the value of its shortest repr
+    (`str(x)`), which is what `object_to_decimal` keeps of it -/
+inductive PyAmount
+  | dec (r : Rat)
+  | int (n : Int)
+  | float (shortestRepr : Rat)
+deriving Repr, DecidableEq
+
+/-- `demeter.utils.object_to_decimal` -/
+def objectToDecimal : PyAmount → Rat
+  | .dec r => r
+  | .int n => (n : Rat)
+  | .float s => s
+
+/-- the pre-fix body run on an unconverted argument with an action-record callback attached: a `float` amount gets
+    through the checks, the debit and the credit, and the call raises `TypeError` while the record is built — the
+    error comes back with the *mutated* wallet.  Kept only for the witness `C04_broker_swap_float_defect_before_fix`. -/
+def swapByFromUnformatted (cx : NumCtx) (w : Wallet) (allowNeg : Bool) (fromTok toTok : String) (a : PyAmount)
+    (exactBinary : Rat) (prices : Prices) (feeRate : Rat) : Except (String × Wallet) SwapResult :=
+  match a with
+  | .float s =>
+    -- `Decimal(amount)` (exact binary value) prices the credit, `subtract_from_balance` (formatted) debits `Decimal(str(x))`
+    match swapByFrom cx w allowNeg fromTok toTok exactBinary prices feeRate with
+    | .error (e, w') => .error (reprStr e, w')
+    | .ok r =>
+      match Wallet.debit cx w fromTok s allowNeg with
+      | .error e => .error (reprStr e, w)
+      | .ok w1 => .error ("TypeError", Wallet.credit cx w1 toTok r.toAmount)
+  | _ =>
+    match swapByFrom cx w allowNeg fromTok toTok (objectToDecimal a) prices feeRate with
+    | .error (e, w') => .error (reprStr e, w')
+    | .ok r => .ok r
+
+/-- `Broker.swap_by_from` as called: argument conversion, then the body -/
+def swapByFromArg (cx : NumCtx) (w : Wallet) (allowNeg : Bool) (fromTok toTok : String) (a : PyAmount)
+    (prices : Prices) (feeRate : Rat) : Except (BrokerErr × Wallet) SwapResult :=
+  swapByFrom cx w allowNeg fromTok toTok (objectToDecimal a) prices feeRate
+
+/-- `Broker.swap_by_to` as called -/
+def swapByToArg (cx : NumCtx) (w : Wallet) (allowNeg : Bool) (fromTok toTok : String) (a : PyAmount)
+    (prices : Prices) (feeRate : Rat) : Except (BrokerErr × Wallet) SwapResult :=
+  swapByTo cx w allowNeg fromTok toTok (objectToDecimal a) prices feeRate
+
 end Demeter
